@@ -113,6 +113,10 @@ class DistributeMapper(IdentityMapper):
     def map_power(self, expr):
         from pymbolic.primitives import Power, Sum
 
+        if isinstance(expr.exponent, int) and expr.exponent == 0:
+            # b**0 is 1 for every b
+            return 1
+
         newbase = self.rec(expr.base)
         if isinstance(newbase, Product):
             return self.rec(pymbolic.flattened_product([
